@@ -288,6 +288,7 @@ fn run(rp: &Rp) -> i32 {
         "std_struct" => replay_std_struct(rp),
         "purity" | "purity_clone" => replay_purity(rp),
         "sim_meta" => replay_sim_meta(rp),
+        "stream" => replay_stream(rp, &hay),
         "pk_prim" => replay_pk_prim(),
         "ac_meta" => replay_ac_meta(rp),
         "reject" | "reject_inf" | "reject_stream" | "reject_replace" => replay_reject(rp, &hay),
@@ -363,6 +364,219 @@ fn replay_purity(rp: &Rp) -> i32 {
             run(&b.build(&rp.pats).expect("build"), rp)
         }
     }
+}
+
+/// Native confirmation of a stream counterexample (`stream_step`, `stream_run`,
+/// `stream_replace`, `stream_wfault`): the solver's stream content is searched
+/// and replaced through the public stream APIs of the real crate (buffer
+/// capacity = longest pattern + `spare` through the capacity hook) under EVERY
+/// read schedule (all compositions of the stream length), with - when `fault`
+/// is set - a reader that fails once at every possible call and a writer that
+/// fails at every possible call. Any disagreement with the in-memory result,
+/// any panic, a wrong prefix before an error, or an end of stream / Ok that
+/// hides an error reproduces the violation.
+fn replay_stream(rp: &Rp, hay: &[u8]) -> i32 {
+    // The solver's stream first. A violated *internal* invariant need not be observable on
+    // that very stream (the solver is free to pick one without a match), so the same
+    // exhaustive schedule sweep is then repeated on the streams obtained by writing each
+    // pattern at each offset of it (confirmation only: the verdict is the solver's).
+    let mut streams: Vec<Vec<u8>> = vec![hay.to_vec()];
+    for p in rp.pats.iter() {
+        for o in 0..=hay.len() {
+            let mut h = hay.to_vec();
+            if h.len() < o + p.len() {
+                h.resize(o + p.len(), b'~');
+            }
+            h[o..o + p.len()].copy_from_slice(p);
+            if h.len() <= hay.len() + 1 && !streams.contains(&h) {
+                streams.push(h);
+            }
+        }
+    }
+    let mut last = 0;
+    for (i, h) in streams.iter().enumerate() {
+        if i > 0 {
+            println!("(derived stream {:?})", String::from_utf8_lossy(h));
+        }
+        last = replay_stream_one(rp, h);
+        if last != 0 {
+            return last;
+        }
+    }
+    last
+}
+
+fn replay_stream_one(rp: &Rp, hay: &[u8]) -> i32 {
+    struct Sched<'a> {
+        data: &'a [u8],
+        pos: usize,
+        sizes: Vec<usize>,
+        idx: usize,
+        calls: usize,
+        fail_at: Option<usize>,
+        failed: bool,
+    }
+    impl<'a> std::io::Read for Sched<'a> {
+        fn read(&mut self, buf: &mut [u8]) -> std::io::Result<usize> {
+            let call = self.calls;
+            self.calls += 1;
+            if Some(call) == self.fail_at {
+                self.failed = true;
+                return Err(std::io::Error::new(std::io::ErrorKind::Other, "injected"));
+            }
+            let remaining = self.data.len() - self.pos;
+            if remaining == 0 || buf.is_empty() {
+                return Ok(0);
+            }
+            let want = self.sizes.get(self.idx).copied().unwrap_or(remaining).max(1);
+            self.idx += 1;
+            let n = want.min(remaining).min(buf.len());
+            buf[..n].copy_from_slice(&self.data[self.pos..self.pos + n]);
+            self.pos += n;
+            Ok(n)
+        }
+    }
+    struct Rec {
+        out: Vec<u8>,
+        calls: usize,
+        fail_at: Option<usize>,
+        failed: bool,
+    }
+    impl std::io::Write for Rec {
+        fn write(&mut self, buf: &[u8]) -> std::io::Result<usize> {
+            let call = self.calls;
+            self.calls += 1;
+            if Some(call) == self.fail_at {
+                self.failed = true;
+                return Err(std::io::Error::new(std::io::ErrorKind::Other, "injected"));
+            }
+            self.out.extend_from_slice(buf);
+            Ok(buf.len())
+        }
+        fn flush(&mut self) -> std::io::Result<()> {
+            Ok(())
+        }
+    }
+    let ac = rp.ac();
+    let spare = rp.kv.get("spare").and_then(|v| v.parse::<usize>().ok()).unwrap_or(1);
+    let fault = rp.flag("fault");
+    let t = hay.len();
+    let want: Vec<M> = ac.find_iter(hay).map(|m| (m.pattern().as_usize(), m.start(), m.end())).collect();
+    let repl = |m: &Match| -> Vec<u8> {
+        let tag = b'0' + m.pattern().as_usize() as u8;
+        if m.pattern().as_usize() % 2 == 1 { vec![tag, tag] } else { vec![tag] }
+    };
+    let mut want_out: Vec<u8> = vec![];
+    ac.replace_all_with_bytes(hay, &mut want_out, |m, _, dst| {
+        dst.extend_from_slice(&repl(m));
+        true
+    });
+    aho_corasick::verif::buffer::set_spare_capacity(Some(spare));
+    let mut bad: Vec<String> = vec![];
+    let nsched: usize = if t == 0 { 1 } else { 1usize << (t - 1) };
+    'outer: for mask in 0..nsched {
+        // cut after byte i when bit i is set
+        let mut sizes = vec![];
+        let mut run = 0;
+        for i in 0..t {
+            run += 1;
+            if i + 1 == t || (mask >> i) & 1 == 1 {
+                sizes.push(run);
+                run = 0;
+            }
+        }
+        let faults: Vec<Option<usize>> = if fault { std::iter::once(None).chain((0..=sizes.len() + 1).map(Some)).collect() } else { vec![None] };
+        for fa in faults.iter().copied() {
+            // ---- stream search (the iterator is driven past an error item: the reader fails once)
+            let rdr = Sched { data: hay, pos: 0, sizes: sizes.clone(), idx: 0, calls: 0, fail_at: fa, failed: false };
+            let r = std::panic::catch_unwind(std::panic::AssertUnwindSafe(|| {
+                let mut got: Vec<M> = vec![];
+                let mut before_err: Option<Vec<M>> = None;
+                let mut errs = 0;
+                let it = ac.try_stream_find_iter(rdr).expect("stream search accepted");
+                for (k, item) in it.enumerate() {
+                    match item {
+                        Ok(m) => got.push((m.pattern().as_usize(), m.start(), m.end())),
+                        Err(_) => {
+                            errs += 1;
+                            if before_err.is_none() {
+                                before_err = Some(got.clone());
+                            }
+                        }
+                    }
+                    if k > 4 * t + 16 {
+                        break;
+                    }
+                }
+                (got, before_err, errs)
+            }));
+            match r {
+                Err(_) => bad.push(format!("stream search panicked (reads {:?}, reader fault at call {:?})", sizes, fa)),
+                Ok((got, before_err, errs)) => {
+                    if let Some(pre) = &before_err {
+                        if pre.len() > want.len() || pre[..] != want[..pre.len()] {
+                            bad.push(format!("matches before the read error {:?} are not a prefix of {:?} (reads {:?}, fault at {:?})", pre, want, sizes, fa));
+                        }
+                    }
+                    if fa.is_none() && errs > 0 {
+                        bad.push("error item without a reader failure".into());
+                    }
+                    if got != want {
+                        bad.push(format!("stream matches {:?} != in-memory {:?} (reads {:?}, reader fault at call {:?}{})", got, want, sizes, fa,
+                            if fa.is_some() { ", iteration resumed after the error item" } else { "" }));
+                    }
+                }
+            }
+            // ---- stream replacement, writer failing at every call (or never)
+            let nw = if fault { want_out.len() + 3 } else { 0 };
+            for wf in std::iter::once(None).chain((0..nw).map(Some)) {
+                let rdr = Sched { data: hay, pos: 0, sizes: sizes.clone(), idx: 0, calls: 0, fail_at: fa, failed: false };
+                let mut wtr = Rec { out: vec![], calls: 0, fail_at: wf, failed: false };
+                let mut handed_ok = true;
+                let r = std::panic::catch_unwind(std::panic::AssertUnwindSafe(|| {
+                    let res = ac.try_stream_replace_all_with(rdr, &mut wtr, |m, bytes, w| {
+                        if m.end() > hay.len() || bytes != &hay[m.start()..m.end()] {
+                            handed_ok = false;
+                        }
+                        std::io::Write::write_all(w, &repl(m))
+                    });
+                    res.is_ok()
+                }));
+                match r {
+                    Err(_) => bad.push(format!("stream replacement panicked (reads {:?}, reader fault {:?}, writer fault {:?})", sizes, fa, wf)),
+                    Ok(ok) => {
+                        let read_failed = fa.map_or(false, |_| !ok && !wtr.failed);
+                        if !handed_ok {
+                            bad.push(format!("replacement closure not handed the matched bytes (reads {:?})", sizes));
+                        }
+                        if wtr.failed && ok {
+                            bad.push(format!("writer failure at call {:?} not reported (reads {:?})", wf, sizes));
+                        }
+                        if fa.is_none() && !wtr.failed && !ok {
+                            bad.push(format!("stream replacement failed without a fault (reads {:?})", sizes));
+                        }
+                        if ok && wtr.out != want_out && fa.is_none() {
+                            bad.push(format!("stream replacement wrote {:?}, in-memory replacement gives {:?} (reads {:?})",
+                                String::from_utf8_lossy(&wtr.out), String::from_utf8_lossy(&want_out), sizes));
+                        }
+                        if wtr.out.len() > want_out.len() || wtr.out[..] != want_out[..wtr.out.len()] {
+                            bad.push(format!("bytes written {:?} are not a prefix of the fault-free output {:?} (reads {:?}, reader fault {:?}, writer fault {:?})",
+                                String::from_utf8_lossy(&wtr.out), String::from_utf8_lossy(&want_out), sizes, fa, wf));
+                        }
+                        let _ = read_failed;
+                    }
+                }
+                if bad.len() >= 4 {
+                    break 'outer;
+                }
+            }
+            if bad.len() >= 4 {
+                break 'outer;
+            }
+        }
+    }
+    aho_corasick::verif::buffer::set_spare_capacity(None);
+    report("stream search / stream replacement over every read schedule", &bad, &"equal to the in-memory result", !bad.is_empty())
 }
 
 /// Native form of `pk_prim`. (1) function: for every needle length 0..=13, every
